@@ -1113,6 +1113,9 @@ impl Vm {
         if let Some(pending) = pending {
             self.push(pending.value);
             if pending.rethrow {
+                if !pending.ip.is_null() {
+                    self.active_fiber_mut().error_ip = Some(pending.ip);
+                }
                 return self.unwind_stack();
             }
             self.ip = pending.ip;
@@ -1584,11 +1587,10 @@ impl Vm {
 
         self.active_fiber_mut().unwind_pending_returns(&handler);
         // The saved throw site is only meaningful while the exception is still propagating through
-        // finally blocks of the frame that threw it.
+        // finally blocks of the frame that threw it; while such a block runs it is kept with the
+        // waiting exception, so that an error raised by the block itself reports its own site.
         let same_frame = self.active_fiber().frames.len() == handler.frame_count;
-        if !(same_frame && handler.has_catch_block()) {
-            self.active_fiber_mut().error_ip = None;
-        }
+        let throw_site = self.active_fiber_mut().error_ip.take();
         self.active_fiber_mut()
             .close_upvalues(handler.init_stack_size);
         self.active_fiber_mut()
@@ -1604,7 +1606,7 @@ impl Vm {
             let mut fiber = self.active_fiber_mut();
             let pending = object::PendingReturn {
                 value: exc_object,
-                ip: ptr::null(),
+                ip: throw_site.filter(|_| same_frame).unwrap_or(ptr::null()),
                 rethrow: true,
                 frame_count: handler.frame_count,
                 handler_depth: fiber.exc_handlers.len(),
